@@ -324,6 +324,7 @@ pub fn c13(cx: &Cx) -> i32 {
 
 pub fn c20(cx: &Cx) -> i32 {
     let mut rep = cx.report("C20");
+    crate::props_tp::ctor_kind_rule(cx, &mut rep, &["Clone", "Default", "BinaryOp", "UnaryOp"]);
     // an attribute the expansion consumed but left on the item is expanded again: duplicate impls (E0119) in generated code (the C14 rule)
     rep.import(&crate::props_entry::c14_report(cx), &["ES-strip-coverage", "DM-strip-set"]);
     crate::misc::span_hygiene_rule(cx, &mut rep);
@@ -405,6 +406,7 @@ pub fn c12(cx: &Cx) -> i32 {
     use crate::cmp::*;
     use crate::refmodel::*;
     let mut rep = cx.report("C12");
+    crate::props_tp::ctor_kind_rule(cx, &mut rep, &["Clone", "Default", "BinaryOp", "UnaryOp"]);
     // stacked `#[derive(..)]` attributes become stacked `#[derive_ex(..)]` attributes: every list must be read (the C15 rule)
     rep.import(&crate::props_entry::c15_report(cx), &["DM-arg-merge"]);
     crate::misc::span_hygiene_rule(cx, &mut rep);
